@@ -461,8 +461,20 @@ func c18RegistryExtension(c *Ctx) {
 						"after %s: code %d -> (%q, %v), name %q -> (%d, %v): names and codes do not map one-to-one", after, t, got, err, name, back, err2)
 					return false
 				}
-				_, errS := f.ActivateByType(0.5, nil, t)
+				vS, errS := f.ActivateByType(0.5, nil, t)
 				_, errM := f.ActivateModuleByType([]float64{0.5, 2}, nil, t)
+				if !kinds[t] && errS == nil {
+					// the network package activates a neuron through the factory it is handed: the same function, the same answer
+					nd := network.NewNNode(1, network.HiddenNeuron)
+					nd.ActivationType = t
+					nd.ActivationSum = 0.5
+					if aerr := network.ActivateNode(nd, f); aerr != nil || nd.Activation != vS && !(math.IsNaN(vS) && math.IsNaN(nd.Activation)) {
+						c.Violate("registry-extension", map[string]interface{}{"key": "extension", "after": after},
+							"after %s: network.ActivateNode with this factory gives (%v, %v) for %q, the factory itself %v", after, nd.Activation, aerr, name, vS)
+						return false
+					}
+					c.Count("registry.node_activated_through_own_factory", 1)
+				}
 				if kinds[t] && (errS == nil || errM != nil) || !kinds[t] && (errS != nil || errM == nil) {
 					c.Violate("registry-extension", map[string]interface{}{"key": "extension", "after": after}, "after %s: %q answers as the wrong kind of activator (%v / %v)", after, name, errS, errM)
 					return false
